@@ -9,6 +9,9 @@
 (*                                           number of the call on this instance                               *)
 (*   Aux{ep, call, req, at, answer, delivered}  the real code made the auxiliary request req at provider `at`   *)
 (*                                           on behalf of call `call` and got a value / a fault back             *)
+(*   Poll{ep, call, relay, n, answer}        the real code asked scripted relay `relay` for the n-th time on     *)
+(*                                           behalf of call `call` (the relay knows the call from the slot asked  *)
+(*                                           for) and was given `answer`                                           *)
 (*   Use{ep, call, use, outcome}             a consumer of the call ran (execservice)                          *)
 (*   Return{ep, call, outcome}               the call came back: ok | error | fallback                         *)
 (*   Undeliverable{ep, call}                 the library decoder does not deliver this (gated) input           *)
@@ -70,6 +73,16 @@ TraceAux ==
     /\ Aux(Trace[l].call, Trace[l].delivered)
     /\ UNCHANGED <<tshape, shared>>
 
+\* the relay gave the answer that the input of THIS call chose for its n-th poll (the relay tells the calls apart
+\* by the slot they ask for, so this also holds next to another call in flight)
+TracePoll ==
+    /\ IsEvent("Poll")
+    /\ Trace[l].call \in InFlight
+    /\ Trace[l].n >= 1 /\ Trace[l].relay \in Relays
+    /\ Trace[l].answer = PollAnswer(inst.ep, tshape[Trace[l].call], Trace[l].relay, IF Trace[l].n > MaxPoll THEN MaxPoll ELSE Trace[l].n)
+    /\ Poll(Trace[l].call)
+    /\ UNCHANGED <<tshape, shared>>
+
 TraceUse ==
     /\ IsEvent("Use")
     /\ Use(Trace[l].call, Trace[l].use, Trace[l].outcome)
@@ -102,7 +115,7 @@ TraceClose ==
     /\ inst # NoInst /\ InFlight = {}
     /\ UNCHANGED <<ivars, tshape, shared>>
 
-TraceNext == \/ TraceReset \/ TraceInstance \/ TraceFresh \/ TraceCall \/ TraceAux \/ TraceUse \/ TraceReturn
+TraceNext == \/ TraceReset \/ TraceInstance \/ TraceFresh \/ TraceCall \/ TraceAux \/ TracePoll \/ TraceUse \/ TraceReturn
              \/ TraceUndeliverable \/ TraceDecoderPanic \/ TraceHeld \/ TraceClose
 
 TraceSpec == TraceInit /\ [][TraceNext]_tvars
